@@ -1,4 +1,5 @@
 import F3.Proofs.InstanceRun
+import F3.Proofs.ParticipantRun
 /-!
 # C07 — protocol discipline of an honest participant (Layer B, on the executable model of `gpbft.go`)
 
@@ -234,5 +235,129 @@ example : (∀ op ∈ exOps, OpOk op) ∧ hasFailure (run (init exCfg exTbl [7, 
   intro op hop
   simp only [exOps, List.mem_cons, List.mem_nil_iff, or_false] at hop
   rcases hop with rfl | rfl | rfl | rfl | rfl | rfl | rfl | rfl <;> simp [OpOk, MsgOk]
+
+/-! ## The same discipline at the participant API (`gpbft/participant.go`)
+
+`pstepWith order` is `Participant.ReceiveMessage` / `ReceiveAlarm` for the current instance — what the
+correspondence driver replays against the real `gpbft.Participant`: messages arriving before the instance has
+begun are queued (`messageQueue.Add`), the first alarm begins the instance and drains the queue through
+`instance.ReceiveMany` in the sender order `order` (Go: map iteration order — any order is possible, so the
+theorems quantify over it). `prun order (pinit cfg tbl input) ops` runs a whole sequence of such calls. -/
+section ParticipantAPI
+
+/-- **At most one message per instance, round and step, at the participant API.** For every configuration, power
+table, input chain, drain order and every sequence of `ReceiveMessage` / `ReceiveAlarm` calls over validated
+messages (any senders, contents, order, duplicates; before or after the instance begins) that reports no internal
+error or panic: the participant never requests two broadcasts for the same (round, phase) — the broadcasts made
+while draining the pre-start queue through `ReceiveMany` included. -/
+theorem emit_once_participant (cfg : Cfg) (tbl : Table) (input : Chain) (order : List Pid) (ops : List POp)
+    (hops : ∀ op ∈ ops, POpOk op) (hnf : hasFailure (prun order (pinit cfg tbl input) ops).2 = false) :
+    ((prun order (pinit cfg tbl input) ops).2.filterMap slotOf).Nodup := by
+  have h := (prun_wp order (pinit cfg tbl input) ops (DQ_pinit cfg tbl input) (by simp [pinit]) hops hnf).1
+  have hn := h.bc_nodup
+  rw [evs_bc] at hn
+  exact (List.pairwise_map.1 hn).imp (fun h heq => h (by rw [heq]))
+
+/-- **Progress never moves backwards, at the participant API.** The (round, phase) points notified by the
+participant over any such sequence of calls and any drain order are strictly increasing, and the final point is
+above `(0, INITIAL)`. -/
+theorem progress_monotone_participant (cfg : Cfg) (tbl : Table) (input : Chain) (order : List Pid) (ops : List POp)
+    (hops : ∀ op ∈ ops, POpOk op) (hnf : hasFailure (prun order (pinit cfg tbl input) ops).2 = false) :
+    ((prun order (pinit cfg tbl input) ops).2.filterMap progOf).Pairwise ptLt ∧
+    ptLe (0, 0) (prun order (pinit cfg tbl input) ops).1.inst.pt := by
+  have h := (prun_wp order (pinit cfg tbl input) ops (DQ_pinit cfg tbl input) (by simp [pinit]) hops hnf).1
+  have hs := h.prog_sorted
+  rw [evs_prog] at hs
+  exact ⟨hs.1, h.le⟩
+
+/-- Every broadcast made through the participant API is for the progress point entered by the same call: the
+(progress, broadcast) skeleton of the whole run is well paired. -/
+theorem broadcast_follows_progress_participant (cfg : Cfg) (tbl : Table) (input : Chain) (order : List Pid)
+    (ops : List POp) (hops : ∀ op ∈ ops, POpOk op)
+    (hnf : hasFailure (prun order (pinit cfg tbl input) ops).2 = false) :
+    WP (0, 0) (evs (prun order (pinit cfg tbl input) ops).2) (prun order (pinit cfg tbl input) ops).1.inst.pt :=
+  (prun_wp order (pinit cfg tbl input) ops (DQ_pinit cfg tbl input) (by simp [pinit]) hops hnf).1
+
+/-- `ReceiveMany` on its own: a failure-free drain of any round-sorted list of validated messages is a sequence
+of `receiveOne`s followed by at most one `postReceive`, never run on a terminated instance. -/
+theorem receiveMany_is_micro_run (s : State) (now : Int) (ms : List Msg) (hq : DQ s)
+    (hms : ∀ m ∈ ms, MsgOk m) (hsorted : RoundSorted ms)
+    (hnf : hasFailure (s.receiveMany now ms).2 = false) :
+    ∃ mops, mrun s mops = s.receiveMany now ms ∧ MOK MsgOk s mops :=
+  receiveMany_micro MsgOk (fun _ h => h) now s ms hq (fun m hm => Or.inr (hms m hm)) hsorted hnf
+
+/-- what the drain hands to `ReceiveMany`, for every sender order: queued messages only, in non-decreasing round
+order; and the queue holds at most one message per (sender, round, phase). -/
+theorem drain_facts (order : List Pid) (p : PState) (m : Msg) :
+    (∀ x ∈ drainWith order p.queue, x ∈ p.queue) ∧ RoundSorted (drainWith order p.queue) ∧
+    (p.queue.Pairwise (fun a b => ¬ sameSlot a b) → (p.queueAdd m).queue.Pairwise (fun a b => ¬ sameSlot a b)) :=
+  ⟨fun x hx => drainWith_mem order p.queue x hx, drainWith_sorted order p.queue, queueAdd_slots p m⟩
+
+/-! ### Non-vacuity: three messages queued before the instance begins — a PREPARE arriving before QUALITY, a
+late-binding reject (wrong base) and a QUALITY vote — drained at the first alarm, then a run to COMMIT -/
+
+def exPOps : List POp :=
+  [.recv 1 { sender := 1, round := 0, phase := .prepare, value := [7, 8] },   -- PREPARE before QUALITY: queued
+   .recv 2 { sender := 3, round := 0, phase := .prepare, value := [9, 9] },   -- wrong base: queued, dropped by the drain
+   .recv 3 { sender := 1, round := 0, phase := .quality, value := [7, 8] },
+   .alarm 4,                                                                 -- begins the instance, drains the queue
+   .recv 5 { sender := 2, round := 0, phase := .quality, value := [7, 8] },
+   .recv 6 { sender := 2, round := 0, phase := .prepare, value := [7, 8] },
+   .recv 7 { sender := 3, round := 0, phase := .prepare, value := [7, 9] },
+   .alarm 500]
+
+example : (∀ op ∈ exPOps, POpOk op) ∧
+    hasFailure (prun [3, 1] (pinit exCfg exTbl [7, 8]) exPOps).2 = false ∧
+    (prun [3, 1] (pinit exCfg exTbl [7, 8]) (exPOps.take 3)).1.queue.length = 3 ∧
+    ((prun [3, 1] (pinit exCfg exTbl [7, 8]) (exPOps.take 4)).1.inst.getRound 0).prepared.senders = [1] ∧
+    (prun [3, 1] (pinit exCfg exTbl [7, 8]) exPOps).2.filterMap slotOf =
+      [(0, .quality), (0, .prepare), (0, .commit)] := by
+  refine ⟨?_, by decide, by decide, by decide, by decide⟩
+  intro op hop
+  simp only [exPOps, List.mem_cons, List.mem_nil_iff, or_false] at hop
+  rcases hop with rfl | rfl | rfl | rfl | rfl | rfl | rfl | rfl <;> simp [POpOk, POpP, MsgOk]
+
+/-! ### The round order of the drain is needed
+
+`receiveMany_is_micro_run` (hence everything above) uses that `drainWith` hands over the queue in non-decreasing
+round order: DECIDE votes (round 0) come before every message of a later round. On the same messages in another
+order, `ReceiveMany` terminates the instance on the DECIDE quorum and then runs `postReceive` for round 1 — which
+holds a CONVERGE value and a weak PREPARE quorum — on the terminated instance, leaving TERMINATED for CONVERGE of
+round 1 with the decision still recorded. (Only `Participant.beginInstance` calls `ReceiveMany`, on `Drain()`'s
+output, so the implementation is not affected; the example shows the hypothesis `RoundSorted` is not idle.) -/
+
+def exUnsorted : List Msg :=
+  [{ sender := 1, round := 1, phase := .converge, value := [7, 8], rank := 5,
+     just := some { round := 0, phase := .commit, value := [], signers := [0, 1] } },
+   { sender := 1, round := 1, phase := .prepare, value := [7, 8],
+     just := some { round := 0, phase := .commit, value := [], signers := [0, 1] } },
+   { sender := 1, round := 0, phase := .decide, value := [7, 8],
+     just := some { round := 0, phase := .commit, value := [7, 8], signers := [0, 1] } },
+   { sender := 2, round := 0, phase := .decide, value := [7, 8],
+     just := some { round := 0, phase := .commit, value := [7, 8], signers := [0, 1] } }]
+
+example :
+    let s := ((init exCfg exTbl [7, 8]).beginQuality 0).1
+    (∀ m ∈ exUnsorted, MsgOk m) ∧ ¬ RoundSorted exUnsorted ∧
+    hasFailure (s.receiveMany 1 exUnsorted).2 = false ∧
+    (s.receiveMany 1 exUnsorted).1.phase = .converge ∧ (s.receiveMany 1 exUnsorted).1.round = 1 ∧
+    (s.receiveMany 1 exUnsorted).1.termination.isSome = true ∧
+    -- … while the sorted list meets every hypothesis of `receiveMany_is_micro_run` and stays terminated
+    DQ s ∧ (∀ m ∈ sortStable exUnsorted, MsgOk m) ∧ RoundSorted (sortStable exUnsorted) ∧
+    hasFailure (s.receiveMany 1 (sortStable exUnsorted)).2 = false ∧
+    (s.receiveMany 1 (sortStable exUnsorted)).1.phase = .terminated := by
+  have hall : ∀ m ∈ exUnsorted, MsgOk m := ?_
+  refine ⟨hall, ?_, by decide, by decide, by decide, by decide,
+    ⟨fun _ => rfl, fun h => absurd h (by decide)⟩, fun m hm => hall m ((sortStable_mem _ m).1 hm),
+    sortStable_sorted _, by decide, by decide⟩
+  rotate_left
+  · intro m hm
+    simp only [exUnsorted, List.mem_cons, List.mem_nil_iff, or_false] at hm
+    rcases hm with rfl | rfl | rfl | rfl <;> simp [MsgOk]
+  · intro h
+    have := (List.pairwise_cons.1 h).1 _ (List.mem_cons_of_mem _ (List.mem_cons_of_mem _ List.mem_cons_self))
+    simp at this
+
+end ParticipantAPI
 
 end F3.Props.C07
